@@ -47,7 +47,7 @@ ASSUME("re:sub", params={"pattern": "Str", "repl": "Str", "string": "Str"}, retu
 FUNSPEC("modname", params={"filename": "Str", "uri": "Str"}, returns="Opt[Str]", raises={"*": {}},
         note="user supplied modulename_callable(filename, uri)")
 
-ASSUME("mako.template:Template.__init__",
+ASSUME("mako.template:Template.__init__", view=True,
        params={"self": "Template", "text": "Opt[Str]", "filename": "Opt[Str]", "uri": "Opt[Str]", "lookup": "Opt[Obj[LookupAPI]]",
                "module_filename": "Opt[Str]", "**rest": "Star"},
        modifies=["ptr(self.uri)", "ptr(self.filename)", "ptr(self.lookup)", "ptr(self.module)", "G.built", "G.fs_probes"],
